@@ -16,6 +16,16 @@ fn main() {
     let rest = &args[1..];
     let code = match args.get(1).map(|s| s.as_str()).unwrap_or("") {
         "obj-replay" => obj::replay_with(rest, &|o| o.roundtrip(), true),
+        "dbg" => {
+            let reg = reg::registry();
+            let i: usize = args[2].parse().unwrap();
+            let a = (reg[i].make)().unwrap();
+            let b = (reg[i].make)().unwrap();
+            let c = a.clone_obj();
+            let d = c.roundtrip().unwrap().unwrap();
+            println!("{}\n a==b {:?} a==c {:?} a==d {:?} d==b {:?}\n{}\n{}", reg[i].label(), a.eq_obj(b.as_ref()), a.eq_obj(c.as_ref()), a.eq_obj(d.as_ref()), d.eq_obj(b.as_ref()), a.dbg(), d.dbg());
+            0
+        }
         _ => { eprintln!("unknown subcommand"); 2 }
     };
     std::process::exit(code);
